@@ -764,6 +764,10 @@ func c17GenE2ECases(r *vrt.Run, emit func(c17E2ECase)) {
 
 func TestVerifC17Upstream(t *testing.T) {
 	r := vrt.Start("C17")
+	r.Bound("upstream_exchanges_per_history", vrt.Pick(r, 2, 3))
+	r.Bound("upstream_conn_behaviours", len(c17Behaviours)+2)
+	r.Bound("upstream_conns_per_transport", 2)
+	r.Bound("e2e_history", "optional health-check round, then one query; 1 main + 1 fallback")
 	synctest.Test(t, func(t *testing.T) {
 		c17Epoch = time.Now()
 		vrt.Part(r, "upstream", func(emit func(c17UpCase)) { c17GenUpCases(r, emit) },
